@@ -48,6 +48,7 @@ type Frame struct {
 	nopanic  bool
 	nopanicGuard string // `nopanic if E`: E at function entry ("" = unconditional)
 	lockOnly bool
+	globalLock bool // the discipline's lock is a package-level variable: it guards the fields of every instance
 	tc       *TypeContract // lock discipline of the top-level receiver type (C10)
 	lockAddr string        // address of the top-level receiver's lock
 	old      *State
@@ -1455,7 +1456,7 @@ func (fr *Frame) guardedAccess(st *State, S types.Type, fname, ref string, pos t
 		return
 	}
 	// for fields of the receiver type itself, only accesses to the receiver object are governed by its lock
-	if structKey(S) == top.tc.Key {
+	if structKey(S) == top.tc.Key && !top.globalLock {
 		// other instances (e.g. PutAll(other)) are governed by their own lock
 		fr.vc.oblige("lock", top.oblFn, fr.oblName("guarded:"+fname), fr.curCond,
 			"(=> (= "+ref+" "+top.recvRef+") "+fr.vc.heldTerm(st, top.lockAddr)+")", fr.pos(pos), "access to guarded field "+key+" requires the lock")
